@@ -28,6 +28,8 @@ bor = z3.Function('bor', I, I, I)
 
 blen = z3.Function('blen', Bytes, I)
 sl = z3.Function('sl', Bytes, I, I, Bytes)
+sln = z3.Function('sln', Bytes, I, I, Bytes)   # sln(d, a, k) = sl(d, a, a + k): window of k bytes at a (the start is a bare
+#                                                argument, so a quantified start position can be matched by a trigger)
 cat = z3.Function('cat', Bytes, Bytes, Bytes)
 be = z3.Function('be', Bytes, I)
 le = z3.Function('le', Bytes, I)
@@ -101,6 +103,7 @@ def build_axioms():
     ax('sl_sl', FA([d, lo, hi, lo2, hi2],
                    _imp(z3.And(0 <= lo, lo <= hi, hi <= blen(d), 0 <= lo2, lo2 <= hi2, hi2 <= hi - lo),
                         sl(sl(d, lo, hi), lo2, hi2) == sl(d, lo + lo2, lo + hi2)), [sl(sl(d, lo, hi), lo2, hi2)]))
+    ax('sln_def', FA([d, a, k], sln(d, a, k) == sl(d, a, a + k), [sln(d, a, k)]))
     ax('cat_len', FA([d, e], blen(cat(d, e)) == blen(d) + blen(e), [cat(d, e)]))
     ax('cat_sl_adj', FA([d, e, lo, hi, lo2, hi2],
                         _imp(z3.And(e == d, lo2 == hi, 0 <= lo, lo <= hi, hi <= hi2, hi2 <= blen(d)),
@@ -141,6 +144,28 @@ def build_axioms():
 
 
 AXIOMS = build_axioms()
+
+
+def window(dd, lo_t, hi_t):
+    """sl(dd, lo, hi), written as sln(dd, lo, k) when hi is syntactically lo + k for a non-constant lo"""
+    if not z3.is_int_value(lo_t) and z3.is_app_of(hi_t, z3.Z3_OP_ADD):
+        kids = hi_t.children()
+        for n_, c_ in enumerate(kids):
+            if c_.eq(lo_t):
+                rest = kids[:n_] + kids[n_ + 1:]
+                kk = rest[0] if len(rest) == 1 else z3.Sum(rest)
+                return sln(dd, lo_t, kk)
+    return sl(dd, lo_t, hi_t)
+
+
+def axiom_instances_for(term):
+    """ground instances of the sign axioms (blen_nonneg) for the length terms inside `term`: lets the path feasibility
+    check, which does not load the quantified axioms, see that a length is not negative"""
+    out = []
+    for t in subterms([term]):
+        if z3.is_app(t) and t.decl().name() == blen.name():
+            out.append(t >= 0)
+    return out
 
 
 def axiom_formulas():
